@@ -197,6 +197,15 @@ func c01Programs(tier string) []*schedmc.Program {
 			}
 		}
 	}
+	// one writer and two readers that enter through two DIFFERENT non-owner members (both backup
+	// owners with three replicas): the second read starts after the first has returned
+	for _, cf := range []c01cfg{{3, 3, 1 << 16, "present", ""}, {3, 2, 1 << 16, "present", ""}} {
+		for _, code := range [][]string{{"P", "G", "G"}, {"D", "G", "G"}} {
+			for _, ents := range [][]string{{"EO", "EN", "EN2"}, {"CC", "EN2", "RN"}} {
+				mk(cf, code, ents)
+			}
+		}
+	}
 	// background-worker variants: a janitor or compaction pass racing the client operations
 	for _, bg := range []string{"janitor", "compaction"} {
 		for _, code := range [][]string{{"P"}, {"N"}, {"P", "G"}, {"PG"}} {
